@@ -105,6 +105,33 @@ impl<'gc> DynamicRootSet<'gc> {
         }
     }
 
+    /// Read-only view of the slot table for external verification harnesses: for each slot
+    /// `Ok((target address, ref_count))` if occupied or `Err(next_free)` if vacant, plus the head
+    /// of the free list.
+    #[cfg(gc_arena_verif)]
+    pub fn verif_slots(&self) -> (Vec<Result<(usize, usize), usize>>, usize) {
+        let slots = self.0.slots.borrow();
+        (
+            slots
+                .slots
+                .iter()
+                .map(|s| match s {
+                    Slot::Vacant { next_free } => Err(*next_free),
+                    Slot::Occupied { root, ref_count } => {
+                        Ok((Gc::as_ptr(*root) as usize, *ref_count))
+                    }
+                })
+                .collect(),
+            slots.next_free,
+        )
+    }
+
+    /// Address of the set's own allocation, for external verification harnesses.
+    #[cfg(gc_arena_verif)]
+    pub fn verif_addr(&self) -> usize {
+        Gc::as_ptr(self.0) as *const () as usize
+    }
+
     /// Tests if the given handle belongs to this root set.
     #[inline]
     pub fn contains<R: for<'r> Rootable<'r>>(&self, root: &DynamicRoot<R>) -> bool {
